@@ -187,3 +187,12 @@ Ltac merge_mods :=
   | rewrite (Z.add_mod_idemp_r _ _ P Pnz) in *
   | rewrite (Zminus_mod_idemp_l _ _ P) in *
   | rewrite (Zminus_mod_idemp_r _ _ P) in * ].
+
+(* every comparison occurring in the goal becomes a proposition *)
+Ltac destr_bools :=
+  repeat match goal with
+  | |- context [?x <=? ?y] =>
+      let E := fresh "E" in destruct (x <=? y) eqn:E; [apply Z.leb_le in E|apply Z.leb_gt in E]
+  | |- context [?x <? ?y] =>
+      let E := fresh "E" in destruct (x <? y) eqn:E; [apply Z.ltb_lt in E|apply Z.ltb_ge in E]
+  end; cbn [andb orb negb].
